@@ -49,9 +49,9 @@ func (p *c15) Exhaustive(string) bool { return true }
 func (p *c15) NumCases(tier string) int {
 	n := c15SeqCount()*2 + 2
 	if tier == "thorough" {
-		return n + 8000
+		return n + 16000
 	}
-	return n + 600
+	return n + 3000
 }
 
 func c15DataOp(kind string, t string, salt int) adapt.Op {
